@@ -27,9 +27,7 @@ package route
 //@   modifies held(mu)
 //@   ensures !held(mu)
 // canonical paths are non-empty and start with '/' (assumed: strings / path library code)
-//@ extern func utils.CanonicalPath(p string) (r string)
-//@   modifies
-//@   ensures len(r) >= 1 && r[0] == 0x2f
+// utils.CanonicalPath: its own contract (package utils, verified there) is used: rooted, lower case, no dot segments
 
 // ---- C17: a pattern matches a path iff it equals it, or it is a directory pattern (ends in '/') that is a prefix ----
 //@ spec func strEqSpec(a string, b string) bool = len(a) == len(b) && forall(i, 0, len(a), a[i] == b[i])
